@@ -1,6 +1,6 @@
 (* Correspondence judge for C38: the model (Model/SmallVecModel.v) and the specification (std::vector as lists) are run
    on the case's operation sequence inside Coq, with the allocator oracle instantiated by the addresses (mod 64) that
-   the implementation's ::operator new actually returned, and compared step by step with what the real SmallVector
+   the implementation's allocate() (::operator new, or alignedMalloc for alignof(T) > 16) actually returned, and compared step by step with what the real SmallVector
    did; the executable form of the property is evaluated on the IMPLEMENTATION's observations.  No proofs here. *)
 From Coq Require Import ZArith List Bool.
 From DV Require Import Base.MachInt Base.Corr Model.SmallVecLife Model.SmallVecModel.
@@ -20,10 +20,6 @@ Record caseT := mkCase {
   c_full : list (list Z);        (* every slot, after the last operation *)
   c_final : list Z }.            (* header after destroying every remaining vector ++ [live objects; live blocks] *)
 
-(* the two finding domains (same predicates as in Props/Properties_C38.v) *)
-Definition overaligned (al : Z) : bool := 16 <? al.
-(* selfref_growth from the model, evaluated below on the run *)
-
 Definition oracle (resid : list Z) : nat -> Z -> Z :=
   fun c _ => 1048576 * (Z.of_nat c + 1) + nth c resid 0.
 
@@ -34,7 +30,7 @@ Definition hdr (g : ledger) : list Z :=
 Definition touched (o : op) : list nat :=
   match o with
   | OCtor k | OCtorN k _ | OCtorNV k _ _ | OCtorIL k _ | ODtor k | OPush _ k _ | OPop k | OResize k _ | OResizeV k _ _
-  | OReserve k _ | OClear k | OErase k _ | OPushSelf k _ => [k]
+  | OReserve k _ | OClear k | OErase k _ | OPushSelf k _ | OResizeSelf k _ _ => [k]
   | OCtorCopy k j | OCtorMove k j | OAssignCopy k j | OAssignMove k j => [k; j]
   end.
 
@@ -102,8 +98,7 @@ Section Judge.
   Definition stepobs_eqb (x y : stepobs) : bool :=
     zlist_eqb (drop5 (fst x)) (drop5 (fst y)) && list_eqb zlist_eqb (snd x) (snd y).
 
-  (* result of the walk: Z code (0 = ran to the end, 4 / 5 = stopped at a self-referencing push at capacity:
-     reproduced / not reproduced, 9 = invalid case), accumulated flags, final model state, final spec *)
+  (* result of the walk: Z code (0 = ran to the end, 9 = invalid case), accumulated flags, final model state, final spec *)
   Fixpoint walk (ops : list op) (impl : list stepobs) (ms : option (slots * ledger)) (sp : sspec) (a : acc)
     : Z * acc * option (slots * ledger) * sspec :=
     match ops with
@@ -112,21 +107,15 @@ Section Judge.
         match spec_step o sp with
         | None => (9, a, ms, sp)
         | Some sp' =>
-            let bad_selfref := match o, ms with
-                               | OPushSelf k _, Some (s, _) => at_capacity N s k
-                               | _, _ => false
-                               end in
             match impl with
             | [] => (0, mkAcc (a_agree a) false (a_alh a) (a_ali a), ms, sp)     (* the harness stopped early *)
             | ob :: impl' =>
-                if bad_selfref then ((if step_prop o sp' ob then 5 else 4), a, ms, sp)
-                else
-                  let ms' := match ms with
-                             | Some (s, g) => match step alloc N szT o s g with Ok (s', g') => Some (s', g') | Err _ => None end
-                             | None => None
-                             end in
-                  let agree := match ms' with Some (s', g') => stepobs_eqb ob (model_step_obs o s' g') | None => false end in
-                  walk r impl' ms' sp' (acc_step a agree (step_prop o sp' ob) (snd ob))
+                let ms' := match ms with
+                           | Some (s, g) => match step alloc N szT o s g with Ok (s', g') => Some (s', g') | Err _ => None end
+                           | None => None
+                           end in
+                let agree := match ms' with Some (s', g') => stepobs_eqb ob (model_step_obs o s' g') | None => false end in
+                walk r impl' ms' sp' (acc_step a agree (step_prop o sp' ob) (snd ob))
             end
         end
     end.
@@ -134,24 +123,20 @@ Section Judge.
   Definition final_prop (h : list Z) : bool :=
     flags_ok h && (live_of h =? 0) && (nth 4 h 0 =? nth 5 h 1) && (nth 6 h 1 =? 0) && (nth 7 h 1 =? 0).
 
-  (* 0 agree + property holds | 1 differ, property holds | 2 property fails on the implementation's output
-     3 heap elements misaligned for an over-aligned T (known domain), model predicts exactly that | 13 same but model differs
-     4 push_back(v[i]) at capacity read a destroyed element (known domain) | 5 that domain, implementation behaved | 9 bad case *)
+  (* 0 agree + property holds | 1 differ, property holds | 2 property fails on the implementation's output (contents / size
+     vs std::vector, lifetime flags and balances, element alignment in inline or heap storage) | 9 bad case *)
   Definition judge : Z :=
     let K := c_K c in
     let '(code, a, ms, sp) :=
       walk (c_ops c) (c_steps c) (Some (init_slots K, led0)) (spec_init K) (mkAcc true true true true) in
     if code =? 9 then 9
     else if negb (a_prop a) then 2
-    else if (code =? 4) || (code =? 5) then
-      (if a_ali a && (a_alh a || overaligned al) then code else 2)
     else
       let full := c_full c in
       let fin := c_final c in
       let propF := forallb (slot_prop sp) full && (Z.of_nat (length full) =? Z.of_nat K) && final_prop fin in
       let alF := map slot_align full in
-      let alh := a_alh a && forallb fst alF in
-      let ali := a_ali a && forallb snd alF && (alh || overaligned al || (nth 1 fin 1 =? 0)) in
+      let al_ok := a_alh a && a_ali a && forallb fst alF && forallb snd alF && (nth 1 fin 1 =? 0) in
       let agreeF :=
         match ms with
         | Some (s, g) =>
@@ -165,8 +150,7 @@ Section Judge.
         end in
       let agree := a_agree a && agreeF && (c_objmod c =? 0) && (c_inloff c =? inl_off al) in
       if negb propF then 2
-      else if negb ali then 2
-      else if negb alh then (if overaligned al then (if agree then 3 else 13) else 2)
+      else if negb al_ok then 2
       else if agree then 0 else 1.
 End Judge.
 
